@@ -204,12 +204,12 @@ def obligations(tier, seed):
         else:
             sel = k3
         for ops in sel:
-            hist(store, ops, 200 if tier == "quick" else 700)
+            hist(store, ops, 200 if tier == "quick" else 1500)
         if tier == "thorough":
             k4 = [("add", "add") + r for r in itertools.product(CORE_KINDS, repeat=2)] + \
                  [("add",) + r for r in itertools.product(CORE_KINDS[1:], repeat=3)]
             for ops in rnd.sample(k4, 40 if store == "Memory" else 20):
-                hist(store, ops, 900)
+                hist(store, ops, 2500)
     # binary operators
     for store in STORES:
         sizes = [(1, 1), (2, 1), (1, 2), (2, 2)] if tier == "quick" else [(1, 1), (2, 1), (1, 2), (2, 2), (3, 1), (1, 3)]
@@ -219,7 +219,7 @@ def obligations(tier, seed):
                     continue
                 obs.append(dict(oid="binop/%s/%s/%d-%d" % (store, op, na, nb), family="binop",
                                 desc={"store": store, "op": op, "na": na, "nb": nb},
-                                sig=_sig(3 * (na + nb + 1)), budget=300 if na + nb < 4 else 900))
+                                sig=_sig(3 * (na + nb + 1)), budget=300 if na + nb < 4 else 2000))
     # iteration while mutating (Memory)
     muts = ["add", "rm000", "rm011", "rm110", "rm111"] if tier == "quick" else ["add"] + ["rm" + b for b in SHAPES8]
     scheds = []
